@@ -3,6 +3,7 @@ NEXT Next
 INVARIANT EmitCase
 CHECK_DEADLOCK FALSE
 CONSTANTS
+  LazySchedules = {"each", "batch", "glue_next", "glue_prev"}
   N = 3
   PartialUpTo = 1
-  Schedules = {"each", "batch", "glue_next"}
+  Schedules = {"each", "batch", "glue_next", "glue_prev"}
